@@ -9,8 +9,10 @@ RULE = (
     "seeded Tasklang programs with nested and concurrent overrides of the SAME scoped values / attributes "
     "(AsyncScopedValue.override, async_override) plus logging AsyncContexts, in several concurrently pending tasks, "
     "reads before/inside/after blocks and in child tasks, back-to-back blocks in one step, failures at any step "
-    "(raises, failing items/futures), sync re-entry, several batch kinds; no shared tasks (a read under a task awaited "
-    "by two parents has no unique sequential answer). All get_priority() policies, both builds. Oracles: every read "
+    "(raises, failing items/futures), sync re-entry, several batch kinds; one third of the programs also share tasks "
+    "between parents that override the same values differently - reads are then removed from everything reachable from a "
+    "shared task (only there the sequential answer is not unique), while reads in the parents and their other children "
+    "remain. All get_priority() policies, both builds. Oracles: every read "
     "equals the sequential reference's dynamic override stack (override values are unique per site, so a read names the "
     "override that produced it); the thread's global resume/pause sequence of logging contexts is well parenthesised; "
     "after the computation ends (value or exception) every scoped value and attribute is back at its default. "
@@ -33,7 +35,50 @@ COMMON = dict(
     ctxs=["ov", "ov", "ov", "attr", "actx"],
     kinds=2,
 )
-PROFILES = [gen.profile(**COMMON), gen.profile(**dict(COMMON, max_width=5, w_struct=dict(leaf=2, tuple=2, list=5, dict=1)))]
+PROFILES = [
+    gen.profile(**COMMON),
+    gen.profile(**dict(COMMON, max_width=5, w_struct=dict(leaf=2, tuple=2, list=5, dict=1))),
+    # shared tasks (awaited by several parents that override the same values differently); reads are then removed
+    # from every node reachable from a shared task, because only there the sequential answer is not unique
+    gen.profile(**dict(COMMON, p_shared=1.0, p_reuse=0.05, max_nodes=10)),
+]
+
+
+def strip_reads_under_shared(prog):
+    """Remove read statements from all nodes reachable from a shared task."""
+    seen = set()
+    stack = list(prog.get("shared", []))
+    while stack:
+        n = stack.pop()
+        if n in seen:
+            continue
+        seen.add(n)
+        for st in lang.iter_stmts(prog["nodes"][n]["body"]):
+            if st[0] == "yield":
+                for l in lang.iter_leaves(st[1]):
+                    if l[0] == "call":
+                        stack.append(l[2])
+                    elif l[0] == "shared":
+                        stack.append(prog["shared"][l[1]])
+            elif st[0] == "sync":
+                stack.append(st[2])
+
+    def strip(block):
+        out = []
+        for st in block:
+            if st[0] == "read":
+                continue
+            if st[0] == "try":
+                st[1] = strip(st[1])
+                st[3] = strip(st[3])
+            elif st[0] == "with":
+                st[2] = strip(st[2])
+            out.append(st)
+        return out
+
+    for n in seen:
+        prog["nodes"][n]["body"] = strip(prog["nodes"][n]["body"])
+    return len(seen)
 MONITORS = ("refeq", "restore", "nesting")
 HOWS = ["call", "value", "yielded", "yielded_value"]
 
@@ -60,7 +105,10 @@ def run_unit(unit, progress):
     for i in range(a, b):
         progress(i)
         cs = tl.case_seed(unit["seed"], ID, i)
-        prog = gen.generate(cs, PROFILES[i % 2])
+        prog = gen.generate(cs, PROFILES[i % 3])
+        if prog.get("shared"):
+            strip_reads_under_shared(prog)
+            inc("programs_with_shared_tasks")
         rnd = random.Random(cs ^ 0xC07)
         try:
             exp_rrt = ref.evaluate(prog)
@@ -118,7 +166,7 @@ def run_unit(unit, progress):
 
 def reach(c, tier):
     out = []
-    for k in ("reads_compared", "reads_under_an_override", "n_nesting_events", "n_restore_checks", "computations_ending_in_exception"):
+    for k in ("reads_compared", "reads_under_an_override", "programs_with_shared_tasks", "n_nesting_events", "n_restore_checks", "computations_ending_in_exception"):
         if not c.get(k):
             out.append("%s is zero" % k)
     if c.get("max_nesting_depth", 0) < 2:
